@@ -189,7 +189,7 @@ func runProperty(P *Program, pf *PropFile, findings *FindingsFile, timeout int, 
 	var runs []*funcRun
 	var mu sync.Mutex
 	done := map[string]bool{}
-	sem := make(chan struct{}, 4)
+	sem := make(chan struct{}, 6)
 	runWave := func(keys []string, dep bool) []*funcRun {
 		wave := make([]*funcRun, len(keys))
 		var wg sync.WaitGroup
@@ -654,6 +654,11 @@ var pikePreRe = regexp.MustCompile(`/pre:(cache|server|location|compress|upstrea
 // libraryPre: a precondition obligation of a library callee. Such obligations are checked when
 // generated but never pinned: replacing one library helper by another is not a property change.
 func libraryPre(name string) bool {
+	for _, k := range []string{"/lock-leak", "/unlockheld", "/lockfree", "/lockorder", "/hook:", "/lockinv:"} {
+		if strings.Contains(name, k) {
+			return true // generated from the code's own lock operations and field writes, not from a contract clause
+		}
+	}
 	if strings.Contains(name, "/inv:") || strings.Contains(name, "/rangeinv:") || strings.Contains(name, "/loopframe:") {
 		return true // loop invariants are proof devices: if the loop goes and the contract still proves, nothing is lost
 	}
